@@ -144,6 +144,12 @@ class Interp2(Interp):
         vals = [d[kk] for kk in keys]
         if all(isinstance(v, str) for v in vals):
             return Opaque('dictval', str)
+        if not self.pure and any(isinstance(v, type) for v in vals):
+            # values that cannot be merged (classes): branch on the key
+            for kk, c in zip(keys, conds):
+                if self.decide(c):
+                    return d[kk]
+            self.raise_exc(KeyError, k)
         r = vals[-1]
         for kk, v, c in reversed(list(zip(keys, vals, conds))[:-1]):
             r = self.merge(c, v, r)
@@ -175,9 +181,9 @@ class Interp2(Interp):
         k = t.decl().kind()
         if k == z3.Z3_OP_ITE:
             c = t.arg(0)
-            if self.entails(c, 800):
+            if self.entails_cheap(c):
                 return self.resolve_ite(self.rw(t.arg(1)), depth + 1)
-            if self.entails(z3.Not(c), 800):
+            if self.entails_cheap(z3.Not(c)):
                 return self.resolve_ite(self.rw(t.arg(2)), depth + 1)
             return t
         if k in (z3.Z3_OP_ADD, z3.Z3_OP_SUB, z3.Z3_OP_MUL) and t.num_args() <= 4:
@@ -208,17 +214,17 @@ class Interp2(Interp):
                 dropped = self.unique_const(start) - sc0
                 nl = self.rw(length)
                 # length was computed against the original term: adjust when it is `len(t) - start`
-                if self.entails(length == z3.Length(t) - start, 800):
+                if self.entails_cheap(length == z3.Length(t) - start):
                     nl = self.rw(z3.Length(nt) - sc0)
                 return self.mk_extract(nt, z3.IntVal(sc0), nl)
         if z3.is_app(t) and t.decl().kind() == z3.Z3_OP_SEQ_EXTRACT:
             base, o, l = t.arg(0), t.arg(1), t.arg(2)
-            if self.entails(z3.And(o >= 0, start >= 0, length >= 0, start + length <= l,
-                                   o + l <= z3.Length(base)), 1000):
+            if self.entails_cheap(z3.And(o >= 0, start >= 0, length >= 0, start + length <= l,
+                                         o + l <= z3.Length(base))):
                 return self.rw(z3.Extract(base, self.rw(o + start), length))
         lc = self.unique_const(length)
         sc = self.unique_const(start)
-        if sc == 0 and lc is None and self.entails(length == z3.Length(t), 800):
+        if sc == 0 and lc is None and self.entails_cheap(length == z3.Length(t)):
             return t
         return self.rw(z3.Extract(t, start, length))
 
@@ -253,7 +259,7 @@ class Interp2(Interp):
         t = self.rw(t)
         if z3.is_app(t) and t.decl().kind() == z3.Z3_OP_SEQ_EXTRACT:
             base, o, l = t.arg(0), t.arg(1), t.arg(2)
-            if self.entails(z3.And(o >= 0, pos >= 0, pos < l, o + l <= z3.Length(base)), 1000):
+            if self.entails_cheap(z3.And(o >= 0, pos >= 0, pos < l, o + l <= z3.Length(base))):
                 return self.rw(base[self.rw(o + pos)])
         return t[pos]
 
@@ -859,6 +865,15 @@ class Interp2(Interp):
             if self.is_generator(node) and self.gen_unit and getattr(fr, 'collect', None) is None \
                     and self.depth == 1:
                 fr.collect = []
+            if self.is_generator(node) and getattr(self, '_force_collect', False) \
+                    and getattr(fr, 'collect', None) is None:
+                self._force_collect = False
+                fr.collect = []
+                try:
+                    self.exec_block(node.body)
+                except ReturnSig:
+                    pass
+                return self.alloc(ListCell(items=list(fr.collect)))
             if self.is_generator(node) and getattr(fr, 'collect', None) is None:
                 # calling a generator function creates a lazy generator object
                 self.frame = saved
